@@ -797,4 +797,172 @@ theorem dev_not_eqmod {a a' : JVal} (d : Dev a a') :
     have := hs xs.length x' x getElem?_append_mid getElem?_append_mid
     exact ih (wfL_mem hw x (by simp)) (noDirL_mem hn x (by simp)) (noDirL_mem hn' x' (by simp)) this
 
+/-! ## normalising an expectation keeps it well formed -/
+
+theorem lookup_insert_ne : ∀ {o : List (String × JVal)} {k k' : String} {v : JVal},
+    k' ≠ k → lookup k' (JVal.insert k v o) = lookup k' o
+  | [], k, k', v, h => by simp [JVal.insert, lookup, Ne.symm h]
+  | (k0, v0) :: rest, k, k', v, h => by
+    simp only [JVal.insert]
+    split
+    · rename_i hk
+      subst hk
+      simp [lookup, Ne.symm h]
+    · simp only [lookup]
+      split
+      · rfl
+      · exact lookup_insert_ne h
+
+theorem lookup_erase_ne : ∀ {o : List (String × JVal)} {k k' : String},
+    k' ≠ k → lookup k' (JVal.erase k o) = lookup k' o
+  | [], _, _, _ => rfl
+  | (k0, v0) :: rest, k, k', h => by
+    simp only [JVal.erase]
+    split
+    · rename_i hk
+      subst hk
+      simp [lookup, Ne.symm h]
+    · simp only [lookup]
+      split
+      · rfl
+      · exact lookup_erase_ne h
+
+theorem lookup_erase_isNone_of : ∀ {o : List (String × JVal)} {k k' : String},
+    (lookup k' o).isNone = true → (lookup k' (JVal.erase k o)).isNone = true
+  | [], _, _, h => h
+  | (k0, v0) :: rest, k, k', h => by
+    simp only [lookup] at h
+    split at h
+    · cases h
+    · rename_i hk
+      simp only [JVal.erase]
+      split
+      · exact h
+      · simp only [lookup, hk, if_false]
+        exact lookup_erase_isNone_of h
+
+theorem lookup_insert_isNone_of : ∀ {o : List (String × JVal)} {k k' : String} {v : JVal},
+    k' ≠ k → (lookup k' o).isNone = true → (lookup k' (JVal.insert k v o)).isNone = true := by
+  intro o k k' v hne h
+  rw [lookup_insert_ne hne]; exact h
+
+theorem nodupKeys_erase : ∀ {o : List (String × JVal)} {k : String},
+    nodupKeys o = true → nodupKeys (JVal.erase k o) = true
+  | [], _, _ => rfl
+  | (k0, v0) :: rest, k, h => by
+    simp only [nodupKeys, Bool.and_eq_true] at h
+    simp only [JVal.erase]
+    split
+    · exact h.2
+    · simp only [nodupKeys, Bool.and_eq_true]
+      exact ⟨lookup_erase_isNone_of h.1, nodupKeys_erase h.2⟩
+
+theorem nodupKeys_insert : ∀ {o : List (String × JVal)} {k : String} {v : JVal},
+    nodupKeys o = true → nodupKeys (JVal.insert k v o) = true
+  | [], _, _, _ => by simp [JVal.insert, nodupKeys, lookup]
+  | (k0, v0) :: rest, k, v, h => by
+    simp only [nodupKeys, Bool.and_eq_true] at h
+    simp only [JVal.insert]
+    split
+    · rename_i hk
+      subst hk
+      simp only [nodupKeys, Bool.and_eq_true]
+      exact h
+    · rename_i hk
+      simp only [nodupKeys, Bool.and_eq_true]
+      exact ⟨lookup_insert_isNone_of hk h.1, nodupKeys_insert h.2⟩
+
+theorem wfO_erase : ∀ {o : List (String × JVal)} {k : String}, wfO o = true → wfO (JVal.erase k o) = true
+  | [], _, _ => rfl
+  | (k0, v0) :: rest, k, h => by
+    simp only [wfO, Bool.and_eq_true] at h
+    simp only [JVal.erase]
+    split
+    · exact h.2
+    · simp only [wfO, Bool.and_eq_true]
+      exact ⟨h.1, wfO_erase h.2⟩
+
+theorem wfO_insert : ∀ {o : List (String × JVal)} {k : String} {v : JVal},
+    wfO o = true → wf v = true → wfO (JVal.insert k v o) = true
+  | [], _, _, _, hv => by simp [JVal.insert, wfO, hv]
+  | (k0, v0) :: rest, k, v, h, hv => by
+    simp only [wfO, Bool.and_eq_true] at h
+    simp only [JVal.insert]
+    split
+    · simp only [wfO, Bool.and_eq_true]; exact ⟨hv, h.2⟩
+    · simp only [wfO, Bool.and_eq_true]; exact ⟨h.1, wfO_insert h.2 hv⟩
+
+theorem ne_of_not_directive {k d : String} (hk : isDirective k = false) (hd : isDirective d = true) : d ≠ k := by
+  intro e; subst e; rw [hk] at hd; cases hd
+
+/-- replacing / adding an ordinary key whose new value is a map keeps the directive entries well-shaped -/
+theorem dirShape_insert_obj {o : List (String × JVal)} {k : String} {x : List (String × JVal)}
+    (hk : isDirective k = false) (h : dirShape o = true) : dirShape (JVal.insert k (.obj x) o) = true := by
+  have hs : lookup compareAsSet (JVal.insert k (.obj x) o) = lookup compareAsSet o :=
+    lookup_insert_ne (ne_of_not_directive hk (by decide))
+  have hm : lookup compareAsMap (JVal.insert k (.obj x) o) = lookup compareAsMap o :=
+    lookup_insert_ne (ne_of_not_directive hk (by decide))
+  have hmk : mapKeysOf (JVal.insert k (.obj x) o) = mapKeysOf o := by simp only [mapKeysOf, hm]
+  simp only [dirShape, Bool.and_eq_true, hs, hm, hmk] at h ⊢
+  refine ⟨h.1, ?_⟩
+  simp only [List.all_eq_true] at h ⊢
+  intro kf hkf
+  by_cases e : kf.1 = k
+  · rw [e, lookup_insert_self]
+  · rw [lookup_insert_ne e]; exact h.2 kf hkf
+
+theorem dirShape_erase {o : List (String × JVal)} {k : String}
+    (hk : isDirective k = false) (hn : nodupKeys o = true) (h : dirShape o = true) :
+    dirShape (JVal.erase k o) = true := by
+  have hs : lookup compareAsSet (JVal.erase k o) = lookup compareAsSet o :=
+    lookup_erase_ne (ne_of_not_directive hk (by decide))
+  have hm : lookup compareAsMap (JVal.erase k o) = lookup compareAsMap o :=
+    lookup_erase_ne (ne_of_not_directive hk (by decide))
+  have hmk : mapKeysOf (JVal.erase k o) = mapKeysOf o := by simp only [mapKeysOf, hm]
+  simp only [dirShape, Bool.and_eq_true, hs, hm, hmk] at h ⊢
+  refine ⟨h.1, ?_⟩
+  simp only [List.all_eq_true] at h ⊢
+  intro kf hkf
+  by_cases e : kf.1 = k
+  · rw [e, lookup_erase_self hn]
+  · rw [lookup_erase_ne e]; exact h.2 kf hkf
+
+theorem wf_obj_parts {o : List (String × JVal)} (h : wf (.obj o) = true) :
+    nodupKeys o = true ∧ dirShape o = true ∧ wfO o = true := by
+  simp only [wf, Bool.and_eq_true] at h
+  exact ⟨h.1.1, h.1.2, h.2⟩
+
+theorem wf_obj_mk {o : List (String × JVal)} (h1 : nodupKeys o = true) (h2 : dirShape o = true)
+    (h3 : wfO o = true) : wf (.obj o) = true := by
+  simp only [wf, Bool.and_eq_true]; exact ⟨⟨h1, h2⟩, h3⟩
+
+theorem wf_lookup {o : List (String × JVal)} {k : String} {v : JVal}
+    (h : wfO o = true) (hl : lookup k o = some v) : wf v = true :=
+  wfO_mem h (k, v) (lookup_mem hl)
+
+/-- normalising an expectation keeps it well formed -/
+theorem wf_stripLastApplied (e : JVal) (h : DirectivesWF e) : DirectivesWF (stripLastApplied e) := by
+  unfold DirectivesWF at *
+  unfold stripLastApplied
+  split
+  · rename_i kvs
+    obtain ⟨n1, d1, w1⟩ := wf_obj_parts h
+    split
+    · rename_i md hmd
+      obtain ⟨n2, d2, w2⟩ := wf_obj_parts (wf_lookup w1 hmd)
+      split
+      · rename_i ann hann
+        obtain ⟨n3, d3, w3⟩ := wf_obj_parts (wf_lookup w2 hann)
+        have wann : wf (.obj (JVal.erase lastApplied ann)) = true :=
+          wf_obj_mk (nodupKeys_erase n3) (dirShape_erase (by decide) n3 d3) (wfO_erase w3)
+        have wmd : wf (.obj (if (JVal.erase lastApplied ann).isEmpty then JVal.erase "annotations" md
+            else JVal.insert "annotations" (.obj (JVal.erase lastApplied ann)) md)) = true := by
+          split
+          · exact wf_obj_mk (nodupKeys_erase n2) (dirShape_erase (by decide) n2 d2) (wfO_erase w2)
+          · exact wf_obj_mk (nodupKeys_insert n2) (dirShape_insert_obj (by decide) d2) (wfO_insert w2 wann)
+        exact wf_obj_mk (nodupKeys_insert n1) (dirShape_insert_obj (by decide) d1) (wfO_insert w1 wmd)
+      · exact h
+    · exact h
+  · exact h
+
 end Koreo.Exact
